@@ -159,18 +159,32 @@ def rule_annot_check(ctx):
     for s, f in sorted(missing):
         res.inst("fun::%s.%s" % (s, f), None, None, "violation")
         res.violate("fun::%s.%s" % (s, f), "no `impl Check for %s` found that sets annotation `%s`" % (s, f))
-    # check_args: covariable arguments
+    # check_args: covariable arguments (the assignment may live in a helper that check_args calls)
     f = fx.fn("fun::typing::check::check_args")
     fn = Fn(f)
-    flow = Flow(fn)
     setf = set()
-    for bi, si, s in fn.stmts():
-        if s["k"] == "assign" and s["lhs"]["p"]:
-            flds = [e["n"] for e in s["lhs"]["p"] if isinstance(e, dict) and "f" in e]
-            if flds and flds[-1] in ("ty", "chi") and "XVar" in (fn.local_ty(s["lhs"]["l"]) or ""):
-                rv = s["rv"]
-                if (rv["k"] == "agg" and rv.get("variant") == "Some") or (rv["k"] == "use" and _is_some(fn, flow, rv["op"])):
-                    setf.add(flds[-1])
+    todo, seen_fns = [(f, 0)], {f["key"]}
+    while todo:
+        g, depth = todo.pop()
+        gfn = Fn(g)
+        gflow = Flow(gfn)
+        for bi, si, s in gfn.stmts():
+            if s["k"] == "assign" and s["lhs"]["p"]:
+                flds = [e["n"] for e in s["lhs"]["p"] if isinstance(e, dict) and "f" in e]
+                if flds and flds[-1] in ("ty", "chi") and "XVar" in (gfn.local_ty(s["lhs"]["l"]) or ""):
+                    rv = s["rv"]
+                    if (rv["k"] == "agg" and rv.get("variant") == "Some") or (rv["k"] == "use" and _is_some(gfn, gflow, rv["op"])):
+                        setf.add(flds[-1])
+        for k2, g2 in fx.fns.items():
+            if k2.startswith(g["key"] + "::{closure") and k2 not in seen_fns:
+                seen_fns.add(k2)
+                todo.append((g2, depth))
+        if depth < 2:
+            for bi, t in gfn.calls():
+                k2 = t.get("resolved_key") or (t.get("callee_key") if not t.get("callee_trait") else None)
+                if k2 and k2 in fx.fns and fx.fns[k2]["crate"] == "fun" and k2 not in seen_fns and fx.fns[k2].get("impl_trait") != "fun::typing::check::Check":
+                    seen_fns.add(k2)
+                    todo.append((fx.fns[k2], depth + 1))
     for fld in ("ty", "chi"):
         key = "fun::typing::check::check_args:covariable.%s" % fld
         if fld in setf:
